@@ -142,7 +142,7 @@ def run(ck):
         ck.count("exhaustive", 0, set(batch), sample={"text": batch[len(batch) // 2]})
     # (2) spec-level sequences: reference expectation vs implementation (and model)
     cases = []
-    for _ in range(1500 if quick else 40000):
+    for _ in range(1500 if quick else 400000):
         toks, text = [], ""
         for _ in range(rng.choice([1, 2, 4, 8])):
             while True:
